@@ -146,6 +146,7 @@ def tlc_run(module_path, cfg_path, name, workers=4, timeout=1800, xmx="6g", xss=
     res.out_path = out_path
     t0 = time.time()
     tail = []
+    errors = []
     try:
         with open(out_path, "w") as outf:
             p = subprocess.Popen(cmd, cwd=wd, env=e, stdout=subprocess.PIPE, stderr=subprocess.STDOUT, text=True,
@@ -163,6 +164,8 @@ def tlc_run(module_path, cfg_path, name, workers=4, timeout=1800, xmx="6g", xss=
                             res.lines.append(obj)
                         continue
                     outf.write(line)
+                    if line.startswith("Error:") and len(errors) < 10:
+                        errors.append(line)
                     tail.append(line)
                     if len(tail) > 400:
                         del tail[:200]
@@ -178,7 +181,7 @@ def tlc_run(module_path, cfg_path, name, workers=4, timeout=1800, xmx="6g", xss=
                     p.kill()
     finally:
         res.wall = time.time() - t0
-    text = "".join(tail)
+    text = "".join(errors) + "".join(tail)
     res.raw_tail = text
     m = None
     for m in STATS_RE.finditer(text):
